@@ -529,7 +529,11 @@ impl Runner {
     pub fn phase_done(&self, name: &str, cases: u64, exhaustive: bool, t0: Instant) {
         let stride = self.stride.load(Ordering::Relaxed);
         let name = if stride > 1 {
-            format!("[backend {} forced, 1/{} sample] {}", crate::real::backend_name(crate::real::BACKEND.load(Ordering::Relaxed)), stride, name)
+            if crate::real::has_runtime_dispatch() {
+                format!("[backend {} forced, 1/{} sample] {}", crate::real::backend_name(crate::real::BACKEND.load(Ordering::Relaxed)), stride, name)
+            } else {
+                format!("[SIMD disabled at build time, 1/{} sample] {}", stride, name)
+            }
         } else {
             name.to_string()
         };
